@@ -162,6 +162,10 @@ func runC12(c *Ctx) {
 		checkCallbackPointersNotRetained(c, "C12-R2")
 	}
 
+	checkLeaseReleaseNamesSpentOutpoint(c, "C12-R4")
+	// the wallet lists every live lease
+	checkNoEarlySuccessExit(c, "C12-R3", "lease-listing-visits-every-lease", c.P.Func("wallet", "Wallet", "ListLeasedOutputs"), "",
+		"Wallet.ListLeasedOutputs can stop with a success answer before every lease was looked at: one stale lease record hides every live lease that sorts after it")
 	// R3: ownership guards
 	lo := wtxFn(c, "C12-R3", "LockOutput")
 	uo := wtxFn(c, "C12-R3", "UnlockOutput")
